@@ -47,6 +47,8 @@ def signature(rec, rej):
             multiline_before = True
     exp = rej.get("expected") or []
     cur_multiline = any(e.get("lend", 0) != e.get("line", 0) for e in exp) if isinstance(exp, list) else False
+    if any(t["k"] == "panic" for t in toks):
+        return "C17|tokenizer-panics|%s" % ("multi-line-token" if '"' in text and "\n" in text else "single-line")
     if why == "token-mismatch" and j < len(toks):
         got = toks[j]
         one = exp[0] if exp and isinstance(exp, list) and len(exp) == 1 else None
@@ -137,7 +139,7 @@ def run_jobs(wd, jobs, extra=None):
     return out_extra
 
 
-def collect(job, ev, verdicts):
+def collect(job, ev, verdicts, action_guard=True):
     """Main thread: turn the TLC results of one trace into verdicts and evidence."""
     rejects = []
     states = trans = 0
@@ -157,6 +159,7 @@ def collect(job, ev, verdicts):
             vlib.tool_error("vacuity: %s@%d: %d states for %d records, at least %d expected" % (job.name, off, r.distinct, n, need))
         if i == 0:
             actions = {k: v[1] for k, v in r.coverage.items() if k.startswith("Trace")}
+        if i == 0 and action_guard:
             need_acts = ["TraceEmit", "TraceAccept"] + {"long": ["TracePrefix"], "numgram": []}.get(job.universe, ["TraceSkip"])
             for act in need_acts:
                 if r.coverage.get(act, (0, 0))[1] == 0:
@@ -257,7 +260,7 @@ def run(ctx):
             open(trace, "w").write(p.stdout)
             job = Job("replay", trace, "free")
         run_jobs(wd, [job])
-        collect(job, ev, verdicts)
+        collect(job, ev, verdicts, action_guard=False)   # a single text need not contain a blank
         ev.set(samples=[rp["input"]])
         ev.write()
         return verdicts.finish()
